@@ -316,6 +316,9 @@ def render(spec):
                 w("%s%s.error_observer(%s_O%d);" % (ind, var, U, op[1]))
             elif k == "eh":
                 w("%s%s.error_handler(%s_EH%s%d);" % (ind, var, U, op[1].upper(), op[2]))
+            elif k == "raw":
+                # verbatim statement(s); `{bp}` stands for the blueprint variable in scope
+                w("%s%s" % (ind, op[1].replace("{bp}", var)))
             elif k == "nest":
                 nb = op[1]
                 w("%s{" % ind)
@@ -330,6 +333,9 @@ def render(spec):
                     w("%s    %s.nest(nb);" % (ind, var))
                 w("%s}" % ind)
 
+    for item in spec.get("extra_items", []):
+        # verbatim Rust items (used by planted rule violations and hand-written variations)
+        w(item.replace("__MOD__", M).replace("__MODU__", U))
     w("pub fn blueprint() -> Blueprint {")
     w("    let mut bp = Blueprint::new();")
     emit_ops(spec["bp"], "bp", 0)
